@@ -705,6 +705,37 @@ fn collect_checked<'a, I: Iterator<Item = &'a TKey> + Clone>(it: I, what: &str, 
     if a.next().is_some() {
         return Err(format!("{what}: yields after None"));
     }
+    // a clone taken mid-way continues from the same position; next() followed by fold sees every remaining element once
+    for j in [1usize, true_len / 2, true_len] {
+        if j > true_len {
+            continue;
+        }
+        let mut x = it.clone();
+        let mut head: Vec<u8> = Vec::new();
+        for _ in 0..j {
+            match x.next() {
+                Some(k) => head.push(k.id),
+                None => return Err(format!("{what}: ended after fewer than {j} of {true_len} items")),
+            }
+        }
+        let y = x.clone();
+        let mut rest_next: Vec<u8> = Vec::new();
+        while let Some(k) = x.next() {
+            rest_next.push(k.id);
+            if rest_next.len() > true_len + 2 {
+                return Err(format!("{what}: does not terminate"));
+            }
+        }
+        let mut rest_fold: Vec<u8> = y.fold(Vec::new(), |mut acc, k| {
+            acc.push(k.id);
+            acc
+        });
+        rest_next.sort_unstable();
+        rest_fold.sort_unstable();
+        if rest_next != rest_fold || head.len() + rest_next.len() != true_len {
+            return Err(format!("{what}: after {j} items next() yields {:?}, a clone's fold {:?} (mathematical result has {true_len} elements)", rest_next, rest_fold));
+        }
+    }
     // via fold
     let f: Vec<u8> = it.fold(Vec::new(), |mut acc, k| {
         acc.push(k.id);
